@@ -22,7 +22,8 @@ const prop = "C10"
 
 // Op of a history over one environment.
 type Op struct {
-	Kind   string // start | stop | start-taskfail | start-hookfail | stop-hookfail | taskdeath | destroy
+	Kind   string // start | stop | start-taskfail | start-hookfail | stop-hookfail | taskdeath | destroy (forced) |
+	//               destroy-graceful (allowInRunningState: the server stops the run first) | destroy-stopfail (that STOP fails: critical hook at Moment before/leave, or Moment task: a task refuses STOP)
 	Moment string // for *-hookfail: before | leave | enter | after
 }
 
@@ -86,6 +87,7 @@ func run(c Case) (res vh.Result) {
 	var mu sync.Mutex
 	failKey := ""
 	failTasks := false
+	failStop := false
 	w.OnProbe = func(p simworld.ProbeRec) simworld.ProbeReply {
 		if strings.HasPrefix(p.Arg, "crit:") {
 			mu.Lock()
@@ -106,9 +108,13 @@ func run(c Case) (res vh.Result) {
 	w.Master.OnCommand = func(t *simworld.SimTask, cmd *simworld.Command) simworld.Reply {
 		mu.Lock()
 		ft := failTasks
+		failStop := failStop
 		mu.Unlock()
 		if ft && cmd.Event == "START" && strings.HasSuffix(simworld.ClassOf(t), "t0") {
 			return simworld.Reply{Error: "simulated task failure", State: "CONFIGURED"}
+		}
+		if failStop && cmd.Event == "STOP" && strings.HasSuffix(simworld.ClassOf(t), "t0") {
+			return simworld.Reply{Error: "simulated task failure", State: "RUNNING"}
 		}
 		return simworld.Reply{}
 	}
@@ -256,6 +262,45 @@ func run(c Case) (res vh.Result) {
 			r := runs[len(runs)-1]
 			r.endedBy = "task-death"
 			r.finalVars = userVars()
+		case "destroy-graceful", "destroy-stopfail":
+			if state != "RUNNING" {
+				continue
+			}
+			if op.Kind == "destroy-stopfail" {
+				if op.Moment == "task" {
+					mu.Lock()
+					failStop = true
+					mu.Unlock()
+				} else {
+					setFail("stop/"+op.Moment, false)
+				}
+				hookInRun = true
+			}
+			mark := w.Note("op %d %s %s", oi, op.Kind, op.Moment)
+			_, err := w.Destroy(id, false, true, false, 90*time.Second)
+			setFail("", false)
+			mu.Lock()
+			failStop = false
+			mu.Unlock()
+			steps = append(steps, fmt.Sprintf("op %d %s %s from RUNNING -> err=%v", oi, op.Kind, op.Moment, err))
+			destroyed = true
+			errEnd = true
+			r := runs[len(runs)-1]
+			for _, e := range w.EnvEvents(id) {
+				if e.Seq > mark && e.Transition == "STOP_ACTIVITY" && (e.Message == "transition completed successfully" || e.Message == "transition error") {
+					r.endSeq = e.Seq
+				}
+			}
+			if op.Kind == "destroy-graceful" {
+				r.endedBy, r.stopDone = "stop-then-teardown", true
+			} else {
+				r.endedBy = "teardown-after-failed-stop-" + op.Moment
+			}
+			for _, p := range w.Probes() {
+				if p.Env == id && strings.HasPrefix(p.Arg, "DESTROY/") && p.Phase == "start" {
+					r.finalVars = p.Vars
+				}
+			}
 		case "destroy":
 			w.Note("op %d destroy", oi)
 			_, err := w.Destroy(id, true, true, false, 60*time.Second)
@@ -429,7 +474,10 @@ func gen(t *rapid.T) Case {
 		if !running {
 			op.Kind = rapid.SampledFrom([]string{"start", "start", "start", "start", "start", "start-taskfail", "start-hookfail", "destroy"}).Draw(t, "kind")
 		} else {
-			op.Kind = rapid.SampledFrom([]string{"stop", "stop", "stop", "stop", "stop-hookfail", "stop-hookfail", "taskdeath", "destroy"}).Draw(t, "kind")
+			op.Kind = rapid.SampledFrom([]string{"stop", "stop", "stop", "stop", "stop-hookfail", "stop-hookfail", "taskdeath", "destroy", "destroy-graceful", "destroy-stopfail"}).Draw(t, "kind")
+		}
+		if op.Kind == "destroy-stopfail" {
+			op.Moment = rapid.SampledFrom([]string{"before", "leave", "task"}).Draw(t, "stopFailure")
 		}
 		if strings.HasSuffix(op.Kind, "hookfail") {
 			op.Moment = rapid.SampledFrom([]string{"before", "leave", "enter", "after"}).Draw(t, "moment")
@@ -460,6 +508,10 @@ func TestFixed(t *testing.T) {
 	vh.Fixed(t, prop, "teardown-while-running", Case{NTasks: 1, Ops: []Op{{Kind: "start"}, {Kind: "stop"}, {Kind: "start"}, {Kind: "destroy"}}}, vh.Confirmed(run))
 	vh.Fixed(t, prop, "task-death-ends-run", Case{NTasks: 2, Ops: []Op{{Kind: "start"}, {Kind: "taskdeath"}}}, vh.Confirmed(run))
 	vh.Fixed(t, prop, "failed-start", Case{NTasks: 1, Ops: []Op{{Kind: "start"}, {Kind: "stop"}, {Kind: "start-taskfail"}}}, vh.Confirmed(run))
+	vh.Fixed(t, prop, "graceful-destroy-while-running", Case{NTasks: 1, Ops: []Op{{Kind: "start"}, {Kind: "stop"}, {Kind: "start"}, {Kind: "destroy-graceful"}}}, vh.Confirmed(run))
+	for _, m := range []string{"before", "leave", "task"} {
+		vh.Fixed(t, prop, "graceful-destroy-whose-stop-fails-"+m, Case{NTasks: 2, Ops: []Op{{Kind: "start"}, {Kind: "destroy-stopfail", Moment: m}}}, vh.Confirmed(run))
+	}
 	for _, m := range []string{"before", "leave", "enter", "after"} {
 		vh.Fixed(t, prop, "stop-hook-fails-"+m, Case{NTasks: 1, Ops: []Op{{Kind: "start"}, {Kind: "stop"}, {Kind: "start"}, {Kind: "stop-hookfail", Moment: m}}}, vh.Confirmed(run))
 		vh.Fixed(t, prop, "start-hook-fails-"+m, Case{NTasks: 1, Ops: []Op{{Kind: "start"}, {Kind: "stop"}, {Kind: "start-hookfail", Moment: m}}}, vh.Confirmed(run))
